@@ -18,7 +18,7 @@ pub struct Block {
 
 /// independent reading of the address-block table
 pub fn blocks() -> Vec<Block> {
-    let text = std::fs::read_to_string("/repo/crates/rs1090/data/patterns.json").expect("patterns.json");
+    let text = std::fs::read_to_string(vcore::ev::repo_root().join("crates/rs1090/data/patterns.json")).expect("patterns.json");
     let v: Value = serde_json::from_str(&text).expect("patterns.json parses");
     let mut out = vec![];
     for r in v["registers"].as_array().expect("registers") {
